@@ -33,15 +33,25 @@ MIN_CONCLUSIVE_FRACTION = 0.8
 
 
 class _ZlibId:
+    """identity 'compression' that remembers the blobs it produced: decompress() of anything else (a
+    mixture of fragments of two schedules) raises zlib.error - the stated assumption about zlib"""
+
     import zlib as _z
 
     error = _z.error
+    produced: list = []  # per path: the record streams handed out by compressobj().flush()
+    strict = False
 
     class _C:
+        def __init__(self):
+            self.parts = []
+
         def compress(self, b):
+            self.parts.append(b)
             return b
 
         def flush(self):
+            _ZlibId.produced.append([x for p in self.parts for x in list(p)])
             return b""
 
     @staticmethod
@@ -50,6 +60,17 @@ class _ZlibId:
 
     @staticmethod
     def decompress(b):
+        if _ZlibId.strict:
+            from symx import s_and, s_or
+
+            data = list(b)
+            alts = []
+            for blob in _ZlibId.produced:
+                if len(blob) == len(data):
+                    alts.append(s_and(*[x == y for x, y in zip(data, blob)]) if data else True)
+            ok = s_or(*alts) if alts else False
+            if not (ok is True or (ok is not False and bool(ok))):
+                raise _ZlibId.error("Error -3 while decompressing data (stub: not a blob this run produced)")
         return b
 
 
@@ -241,9 +262,88 @@ def h_reassemble(ctx, nsp, k, symdays=(3,)):
     return f"{n} frags, {len(seen)} seen"
 
 
+def h_two_versions(ctx, k):
+    """schedule A fully received, then the controller's schedule changes to B (same fragment count) and B's
+    fragments arrive in any order: what is assembled in the end is B (or nothing) - never the stale A"""
+    import symx
+    from ramses_rf.system import schedule as S
+
+    _ZlibId.produced, _ZlibId.strict = [], True
+    try:
+        A = _mk_schedule(Sym(ctx), 1, False, ())
+        B = _mk_schedule(Sym(ctx), 1, False, (2,))
+        fa, fb = S.full_sched_to_fragz(A), S.full_sched_to_fragz(B)
+        n = len(fa)
+        if len(fb) != n:
+            return "different fragment counts"
+        differs = symx.s_not(_same(B, A))
+        if differs is False:
+            return "same schedule"
+        if differs is not True:
+            ctx.assume(differs.e)
+        mk = lambda fr: [{S.SZ_FRAG_NUMBER: i + 1, S.SZ_TOTAL_FRAGS: n, S.SZ_FRAGMENT: f, "frag_length": len(f) // 2} for i, f in enumerate(fr)]  # noqa: E731
+        pa, pb = mk(fa), mk(fb)
+        sc = _Sched(A[S.SZ_ZONE_IDX])
+        pset = []
+        for p in pa:
+            pset = sc._update_payload_set(pset, dict(p))
+        ctx.check(sc._full_schedule is not None, "C17:complete-set-gives-the-schedule")
+        seen = set()
+        for step in range(k):
+            i = symx.choice(ctx, f"arr{step}", list(range(n)))
+            seen.add(i)
+            try:
+                pset = sc._update_payload_set(pset, dict(pb[i]))
+            except Exception as e:  # noqa: BLE001
+                ctx.check(False, "C17:reassembly-never-raises", info=type(e).__name__)
+                return "raised"
+        if len(seen) == n:
+            # every fragment of B has been received (A's are all older): the assembled schedule is B
+            got = sc._full_schedule
+            stale = got is not None and (_same(got, A) is True or (_same(got, A) is not False and bool(_same(got, A))))
+            ctx.check(not stale, "C17:stale-schedule-not-kept-after-a-change")
+        return f"{n} frags"
+    finally:
+        _ZlibId.strict = False
+
+
+def h_fragcmd(ctx, flen):
+    """every fragment length: the write command built from it, and the matching reply, are accepted by the decoder"""
+    import symx
+    from ramses_tx.command import Command
+    from ramses_tx.message import Message
+    from ramses_tx.packet import Packet
+
+    frag = symx.sym_hex(ctx, "frag", 2 * flen)
+    num = symx.choice(ctx, "num", [1, 2, 3])
+    try:
+        cmd = Command.set_schedule_fragment("01:145038", "01", num, 3, frag)
+        msg = Message._from_cmd(cmd)
+        ctx.check(D_eq(msg.payload.get("fragment"), frag), "C17:write-command-of-a-fragment-decodes-back")
+    except Exception as e:  # noqa: BLE001
+        ctx.check(False, "C17:write-command-of-a-fragment-is-accepted", info=type(e).__name__)
+        return "rejected"
+    rp = "045 RP --- 01:145038 18:006402 --:------ 0404 " + f"{7 + flen:03d}" + " 01200008" + f"{flen:02X}" + f"{num:02X}" + "03" + frag
+    try:
+        m2 = Message(Packet.from_file("2023-01-01T00:00:00.000000", rp))
+        ctx.check(D_eq(m2.payload.get("fragment"), frag), "C17:reply-carrying-a-fragment-decodes-back")
+    except Exception as e:  # noqa: BLE001
+        ctx.check(False, "C17:reply-carrying-a-fragment-is-accepted", info=type(e).__name__)
+    return "ok"
+
+
+def D_eq(a, b):
+    from checks.decode import eq_struct
+
+    return eq_struct(a, b)
+
+
 def queries(tier, seed):
     thorough = tier == "thorough"
     qs = []
+    for flen in ((1, 2, 3, 20, 40, 41) if thorough else (1, 2, 41)):
+        qs.append(Query(f"fragcmd[{flen}]", lambda c, flen=flen: h_fragcmd(c, flen), {"h": "fragcmd", "flen": flen}, group="fragcmd", max_secs=200, weight=3))
+    qs.append(Query("two-versions[k=4]", lambda c: h_two_versions(c, 4), {"h": "two", "k": 4}, group="reassemble", max_secs=600, max_paths=100_000, weight=15, split_depth=3))
     pairs = [(0, 1), (2, 3), (4, 5), (6, 0)] if not thorough else [(0, 1), (1, 2), (2, 3), (3, 4), (4, 5), (5, 6), (6, 0), (0, 3, 6)]
     for nsp in ((1, 2, 3) if thorough else (1, 2)):
         for dhw in (False, True):
@@ -274,6 +374,44 @@ def replay(item):
     from ramses_rf.system import schedule as S
 
     cex, prm, label = item["cex"], item["params"], item["label"]
+    if prm["h"] == "fragcmd":
+        from ramses_tx.command import Command
+        from ramses_tx.message import Message
+        from ramses_tx.packet import Packet
+
+        flen, frag, num = prm["flen"], cex["frag"], int(cex.get("num", 1))
+        bad = []
+        try:
+            m = Message._from_cmd(Command.set_schedule_fragment("01:145038", "01", num, 3, frag))
+            if m.payload.get("fragment") != frag:
+                bad.append(f"write decodes to {m.payload.get('fragment')}")
+        except Exception as e:  # noqa: BLE001
+            bad.append(f"write command rejected: {type(e).__name__}: {e}"[:160])
+        rp = "045 RP --- 01:145038 18:006402 --:------ 0404 " + f"{7 + flen:03d}" + " 01200008" + f"{flen:02X}" + f"{num:02X}" + "03" + frag
+        try:
+            m2 = Message(Packet.from_file("2023-01-01T00:00:00.000000", rp))
+            if m2.payload.get("fragment") != frag:
+                bad.append(f"reply decodes to {m2.payload.get('fragment')}")
+        except Exception as e:  # noqa: BLE001
+            bad.append(f"reply rejected: {type(e).__name__}: {e}"[:160])
+        return {"reproduced": bool(bad), "observed": f"fragment of {flen} byte(s) {frag}: " + "; ".join(bad), "signature": f"fragcmd: {label.split(':', 1)[1]}"}
+    if prm["h"] == "two":
+        A = _mk_schedule(Cex(cex), 1, False, ())
+        B = _mk_schedule(Cex(cex), 1, False, (2,))
+        fa, fb = S.full_sched_to_fragz(A), S.full_sched_to_fragz(B)
+        if len(fa) != len(fb) or A == B:
+            return {"reproduced": False, "observed": "fragment counts differ / same schedule with the real zlib", "signature": None}
+        n = len(fa)
+        mk = lambda fr: [{S.SZ_FRAG_NUMBER: i + 1, S.SZ_TOTAL_FRAGS: n, S.SZ_FRAGMENT: f, "frag_length": len(f) // 2} for i, f in enumerate(fr)]  # noqa: E731
+        sc = _Sched(A[S.SZ_ZONE_IDX])
+        pset = []
+        for p in mk(fa):
+            pset = sc._update_payload_set(pset, dict(p))
+        order = [min(int(cex.get(f"arr{s}", 0)), n - 1) for s in range(prm["k"])]
+        for i in order:
+            pset = sc._update_payload_set(pset, dict(mk(fb)[i]))
+        stale = set(order) == set(range(n)) and sc._full_schedule == A
+        return {"reproduced": stale, "observed": f"A received, then B's fragments in order {order} (real zlib): assembled == A: {sc._full_schedule == A}, == B: {sc._full_schedule == B}", "signature": "reassemble: stale schedule kept after a change"}
     sched = _mk_schedule(Cex(cex), prm["nsp"], prm.get("dhw", False), tuple(prm.get("symdays", range(7))))
     frags = S.full_sched_to_fragz(sched)
     if prm["h"] == "roundtrip":
